@@ -21,6 +21,9 @@ import ClairModel.Proofs.OsRelease
 import ClairModel.Proofs.PyMeta
 import ClairModel.Proofs.RpmPkg
 
+-- every variable of a property statement is bound explicitly: a misspelt name is an error, not a new variable
+set_option autoImplicit false
+
 namespace ClairModel.Props.C02
 open ClairModel ClairModel.Bytes ClairModel.Rfc822 ClairModel.Dpkg
 
